@@ -39,7 +39,8 @@ def _case(draw, stratum):
     xmax = stock * draw(st.sampled_from([1.0, 1.0, 0.5, 0.9, 0.1, 0.33]))
     mode = "linear" if stratum == "plan-linear" else ("log" if stratum == "plan-log" else draw(st.sampled_from(["log", "linear"])))
     if mode == "log":
-        ratio = 10 ** draw(st.floats(0, 6, allow_nan=False))
+        # up to twelve decades: the far end of such a series holds a 1e-12 part of stock
+        ratio = 10 ** draw(st.one_of(st.floats(0, 6, allow_nan=False), st.floats(0, 6, allow_nan=False), st.floats(6, 12, allow_nan=False)))
     else:
         ratio = draw(st.sampled_from([1.0, 1.01, 2.0, 10.0, 50.0, 1000.0]))
         if draw(st.booleans()):
@@ -253,5 +254,12 @@ def check_case(case) -> Obs:
         return obs
     obs.nontrivial = info["serial"]
     if case["exec"] is not None:
+        how = (case["R"] + case["C"]) % 3
+        if how:
+            # the plan that is executed was copied or went through pickle (saved to disk, sent to a worker process)
+            from vf.lab import clone
+
+            plan = clone(plan, "deepcopy" if how == 1 else "pickle")
+            obs.cls("plan-cloned:" + ("deepcopy" if how == 1 else "pickle"))
         _execute(obs, case, plan, info)
     return obs
